@@ -377,6 +377,7 @@ pub fn run(ctx: &Ctx) -> Report {
             r.run(&mut rep, &Sched { nh: 2, init: init.clone(), steps });
         }
     }
+    if ctx.replay.is_none() { super::sql_txn::shrink_rollback_scenario(ctx, &mut rep, "iso:aborted-write-visible-after-rollback:full-leaf-shrink"); }
     if let Some(db) = r.db.take() { let _ = guarded(std::panic::AssertUnwindSafe(move || drop(db))); let _ = std::fs::remove_dir_all(&r.dir); }
     rep.notes.push(format!("model requests {}", r.model.requests));
     rep
